@@ -48,6 +48,18 @@ static inline bool pl(const std::string &s, long long &v) {
     v = neg ? -(long long)x : (long long)x;
     return true;
 }
+// weights: decimal integers (quarter units) of any length; beyond 64 bits they are converted through
+// long double (the values used are exactly representable)
+static inline bool pw(const std::string &s, long double &v) {
+    if (s.empty()) return false;
+    size_t k = s[0] == '-' ? 1 : 0;
+    if (k == s.size()) return false;
+    for (size_t t = k; t < s.size(); ++t) if (s[t] < '0' || s[t] > '9') return false;
+    long long small;
+    if (s.size() - k <= 18 && pl(s, small)) { v = (long double)small; return true; }
+    v = strtold(s.c_str(), nullptr);
+    return true;
+}
 static inline bool pf(const std::string &s, bool &v) { if (s == "1") { v = true; return true; } if (s == "0") { v = false; return true; } return false; }
 
 template <class F> static std::string guard(F f) {
